@@ -82,21 +82,40 @@ def gen_base(rs: Stream) -> Dict[str, Any]:
             if rs.chance(0.3):
                 args["c2c_expansion"] = 1.0
             blocks[bi]["chops"].append({"axis": a, "args": args})
-    # a curved edge or two, declared by every owner of the edge (arcs only: symmetric)
+    # a curved edge or two: three-point arcs are declared by every owner of the edge (symmetric); arcs given
+    # by an origin that is not quite equidistant from the two ends (the library adjusts it) and helical
+    # angle-and-axis arcs are declared by the first owner only, in its own sense
     curved = {}
     for b in blocks:
         for slot, (c1, c2) in enumerate(P._slots()):
             key = tuple(sorted((b["corners"][c1], b["corners"][c2])))
             er = Stream(rs.key, "arc", key)
-            if er.chance(0.06):
+            if er.chance(0.06) and key not in curved:
                 Pp, Q = points[key[0]], points[key[1]]
                 mid = [(x + y) / 2 for x, y in zip(Pp, Q)]
-                curved[key] = [round(mid[0] + 0.07, 6), round(mid[1] + 0.05, 6), round(mid[2] + 0.06, 6)]
+                kind = er.weighted([("arc", 6), ("origin", 3), ("angle", 2)])
+                if kind == "arc":
+                    curved[key] = {"kind": "arc", "data": [round(mid[0] + 0.07, 6), round(mid[1] + 0.05, 6), round(mid[2] + 0.06, 6)]}
+                elif kind == "origin":
+                    chord = [y - x for x, y in zip(Pp, Q)]
+                    off = [er.uniform(-1, 1) for _ in range(3)]
+                    curved[key] = {"kind": "origin", "owner": b["name"], "c": (c1, c2),
+                                   "data": [round(mid[k] + 0.9 * off[k] + er.uniform(-0.08, 0.08) * chord[k], 6) for k in range(3)]}
+                else:
+                    curved[key] = {"kind": "angle", "owner": b["name"], "c": (c1, c2), "angle": round(er.uniform(0.3, 1.2), 4),
+                                   "axis": [round(er.uniform(-1, 1), 4) for _ in range(3)]}
     for b in blocks:
         for (c1, c2) in P._slots():
             key = tuple(sorted((b["corners"][c1], b["corners"][c2])))
-            if key in curved:
-                b["edges"].append({"c1": c1, "c2": c2, "kind": "arc", "data": curved[key]})
+            cv = curved.get(key)
+            if cv is None:
+                continue
+            if cv["kind"] == "arc":
+                b["edges"].append({"c1": c1, "c2": c2, "kind": "arc", "data": cv["data"]})
+            elif cv["owner"] == b["name"] and cv["c"] == (c1, c2):
+                e = {"c1": c1, "c2": c2, "kind": cv["kind"]}
+                e.update({k: v for k, v in cv.items() if k in ("data", "angle", "axis")})
+                b["edges"].append(e)
     return {"points": points, "blocks": blocks}
 
 
@@ -579,6 +598,10 @@ def gen_history(seed: int, faults: str) -> Dict[str, Any]:
                 continue
             n = rs.pick([x for x in movable_ops if x not in m.deleted] or movable_ops)
             c = rs.randrange(8)
+            # (often an end of a curved edge: what the edge is derived from must not drift with the moves)
+            ends = [(x, e[k]) for x in movable_ops if x not in m.deleted for e in m.recipes[x]["edges"] if e["kind"] != "arc" for k in ("c1", "c2")]
+            if ends and rs.chance(0.5):
+                n, c = rs.pick(ends)
             base_pos = m.pending.get((n, c)) or m.pos[n][c]
             amp = rs.pick([0.08, 0.08, 0.01, 0.002])  # adjustments are not always large
             to = [round(base_pos[k] + rs.uniform(-amp, amp), 6) for k in range(3)]
